@@ -216,6 +216,14 @@ func (w *World) netStep() bool {
 		return hit
 	}
 	switch {
+	case band(cfg.ProofPm):
+		if w.ch.Pick("proof-genuine", 5) == 4 {
+			if w.offerGenuineProof() {
+				return true
+			}
+		} else if w.forgeProofStep() {
+			return true
+		}
 	case band(cfg.ByzPm):
 		if w.adversaryStep() {
 			return true
